@@ -27,6 +27,8 @@ type Ctx struct {
 	solver  *Solver
 	extracts map[*Term]extractInfo
 	concats  map[*Term][2]*Term
+	allDefs  strings.Builder // every declaration/definition sent so far (for cross-checking a query on other solvers)
+	xcheck   struct{ sampled, agreed, disagreed, inconclusive int }
 }
 
 func NewCtx() *Ctx { return &Ctx{terms: map[string]*Term{}} }
@@ -429,6 +431,7 @@ func (c *Ctx) Check(conds []*Term, want []*Term) (string, map[*Term]uint64) {
 	s := c.solver
 	t0 := time.Now()
 	if c.pending.Len() > 0 {
+		c.allDefs.WriteString(c.pending.String())
 		s.send(c.pending.String())
 		c.pending.Reset()
 	}
@@ -501,4 +504,51 @@ func parseValue(l string) uint64 {
 		fmt.Sscanf(l[strings.Index(l, "(_ bv")+5:], "%d", &r)
 	}
 	return r
+}
+
+// CrossCheck re-decides a verdict query (conjunction of conds) on z3-new and cvc5 from a standalone
+// SMT-LIB2 script and compares with the answer of the primary solver.
+func (c *Ctx) CrossCheck(conds []*Term, primary string, dir string, tag string) {
+	var b strings.Builder
+	b.WriteString("(set-logic ALL)\n")
+	b.WriteString(c.allDefs.String())
+	b.WriteString(c.pending.String())
+	for _, t := range conds {
+		if t.konst {
+			if t.cv == 0 {
+				b.WriteString("(assert false)\n")
+			}
+			continue
+		}
+		b.WriteString("(assert " + t.name + ")\n")
+	}
+	b.WriteString("(check-sat)\n")
+	os.MkdirAll(dir, 0o755)
+	path := dir + "/" + tag + ".smt2"
+	if err := os.WriteFile(path, []byte(b.String()), 0o644); err != nil {
+		return
+	}
+	c.xcheck.sampled++
+	ok := true
+	concl := true
+	for _, sv := range [][]string{{"z3-new", "-T:60", path}, {"cvc5", "--tlimit=60000", path}} {
+		out, _ := exec.Command(sv[0], sv[1:]...).CombinedOutput()
+		res := strings.TrimSpace(strings.Split(strings.TrimSpace(string(out)), "\n")[0])
+		if strings.Contains(string(out), "(error") || (res != "sat" && res != "unsat") {
+			concl = false
+			continue
+		}
+		if res != primary {
+			ok = false
+		}
+	}
+	switch {
+	case !ok:
+		c.xcheck.disagreed++
+	case !concl:
+		c.xcheck.inconclusive++
+	default:
+		c.xcheck.agreed++
+		os.Remove(path)
+	}
 }
